@@ -39,10 +39,9 @@ size_t insert_nogroup(econf_file *dest_kf, struct file_entry **fe,
 		      econf_file *ef) {
   size_t etc_start = 0;
   if (ef) {
-    while (etc_start < ef->length &&
-	   !strcmp(ef->file_entry[etc_start].group, KEY_FILE_NULL_VALUE)) {
-      (*fe)[etc_start] = cpy_file_entry(dest_kf, ef->file_entry[etc_start]);
-      etc_start++;
+    for (size_t i = 0; i < ef->length; i++) {
+      if (!strcmp(ef->file_entry[i].group, KEY_FILE_NULL_VALUE))
+	(*fe)[etc_start++] = cpy_file_entry(dest_kf, ef->file_entry[i]);
     }
   }
   return etc_start;
@@ -59,7 +58,7 @@ size_t merge_existing_groups(econf_file *dest_kf, struct file_entry **fe, econf_
       // Check if the group has changed in the last iteration
       if (i && (i == uf->length ||
 		strcmp(uf->file_entry[i].group, uf->file_entry[i - 1].group))) {
-	for (size_t j = etc_start; j < ef->length; j++) {
+	for (size_t j = 0; j < ef->length; j++) {
 	  // Check for matching groups
 	  if (!strcmp(uf->file_entry[i - 1].group, ef->file_entry[j].group)) {
 	    new_key = true;
